@@ -170,6 +170,10 @@ pub fn exec_step(gi: usize, t: usize, s: &Value, guards: &mut Vec<dispatch::Defa
             match d.as_ref().and_then(|d| d.downcast_ref::<RecCollect>()) {
                 Some(c) => {
                     c.flipped.fetch_xor(true, Ordering::SeqCst);
+                    // a reloadable filter's owner announces the change, as `reload::Handle` does
+                    if c.filter.is_reloadable() {
+                        tracing_core::callsite::rebuild_interest_cache();
+                    }
                 }
                 None => h.applied = false,
             }
@@ -178,7 +182,7 @@ pub fn exec_step(gi: usize, t: usize, s: &Value, guards: &mut Vec<dispatch::Defa
         _ => h.applied = false,
     }
     h.ret = detsim::stamp();
-    if record_max && matches!(op.as_str(), "new" | "drop" | "global" | "rebuild" | "open" | "close") {
+    if record_max && matches!(op.as_str(), "new" | "drop" | "global" | "rebuild" | "open" | "close" | "flip") {
         h.maxlvl = lvl_num(LevelFilter::current());
     }
     ev(format!("op {gi} t{t} {op} k{k} s{site} applied={} ok={} b={} who={} max={}", h.applied, h.ok, h.res_bool, h.who, h.maxlvl));
@@ -210,7 +214,28 @@ pub fn run_plan_threads(nthreads: usize, pre: &[Value], steps: &[Value], sync: b
     let _ = total;
 }
 
+/// Fault: a thread-local whose destructor opens and closes a dispatcher scope while the thread is exiting -
+/// possibly after tracing's own thread-local state is gone. Other threads' scopes must not notice.
+struct LateScope;
+impl Drop for LateScope {
+    fn drop(&mut self) {
+        fault("scope_in_tls_destructor");
+        let g = dispatch::set_default(&Dispatch::none());
+        drop(g);
+    }
+}
+thread_local! {
+    static LATE_A: std::cell::RefCell<Option<LateScope>> = std::cell::RefCell::new(None);
+    static LATE_B: std::cell::RefCell<Option<LateScope>> = std::cell::RefCell::new(None);
+}
+pub static LATE_SCOPES: AtomicUsize = AtomicUsize::new(0);
+
 fn thread_body(t: usize, mine: Vec<(usize, Value)>, sync: bool) {
+    // registered before this thread ever touches tracing (runs after tracing's thread-locals are destroyed) ...
+    let late = t > 0 && LATE_SCOPES.load(Ordering::SeqCst) & (1 << t) != 0;
+    if late {
+        LATE_A.with(|s| *s.borrow_mut() = Some(LateScope));
+    }
     let mut guards: Vec<dispatch::DefaultGuard> = vec![];
     for (gi, s) in mine {
         if sync {
@@ -223,6 +248,11 @@ fn thread_body(t: usize, mine: Vec<(usize, Value)>, sync: bool) {
             TURN.store(gi + 1, Ordering::SeqCst);
             detsim::progress();
         }
+    }
+    // ... and one registered after it did (runs before them)
+    if late {
+        let _ = whoami();
+        LATE_B.with(|s| *s.borrow_mut() = Some(LateScope));
     }
     // a thread may end with scopes still open: they unwind LIFO with the thread
     if !guards.is_empty() {
@@ -238,7 +268,7 @@ fn thread_body(t: usize, mine: Vec<(usize, Value)>, sync: bool) {
 }
 
 fn gen_filter(rng: &mut Rng, allow_dynamic: bool) -> Value {
-    let mode = if allow_dynamic { *rng.pick(&[0u64, 0, 1, 2]) } else { 0 };
+    let mode = if allow_dynamic { *rng.pick(&[0u64, 0, 1, 2, 3, 3]) } else { 0 };
     let thr = *rng.pick(&[0u64, 1, 2, 3, 3, 4, 5, 5]);
     let targets = *rng.pick(&[15u64, 15, 1, 3, 5, 8, 6, 0]);
     json!({"thr": thr, "targets": targets, "mode": mode, "dyn_targets": rng.below(16), "thr2": rng.below(6), "targets2": rng.below(16), "hint": rng.below(3)})
@@ -263,9 +293,9 @@ impl Engine for CoreEngine {
     }
     fn rule(&self, prop: &str) -> String {
         match prop {
-            "C01" => "history over {new collector with filter, drop handle, open/close scope, with_default (optionally panicking), set_global_default, emit event/span at a pool site, enabled! probe, rebuild_interest_cache, flip dynamic filter} on 1-3 threads in a seeded total order; non-trivial = at least one expected delivery AND one expected suppression after at least one collector change; distinct = distinct plan digest".into(),
-            "C02" => "history (op granularity, total order) or schedule (sync granularity: every atomic op of tracing-core is a preemption point) over {open/close scope, with_default incl. unwinding, set_global_default from any thread, emit, Dispatch identity read}, 1-4 threads, including dispatcher use before the global default exists; non-trivial = at least one emission expected at a scoped collector and one at the global default (or discarded); distinct = distinct (plan, schedule digest)".into(),
-            _ => "2-3 threads x <=4 ops from {first hit of shared pool sites, Dispatch::new, drop, set_default+emit, set_global_default, rebuild_interest_cache} under seeded schedules at atomic-op/lock granularity, then a quiescence probe phase; non-trivial = at least one scheduling decision with >=2 runnable threads while two threads touched the same callsite or the dispatcher list; distinct = distinct (plan, schedule digest)".into(),
+            "C01" => "history over {new collector with filter (static, dynamic, or reloadable: two static configurations, the flip rebuilds the interest cache and moves the hint), drop handle, open/close scope, with_default (optionally panicking), set_global_default, emit event/span at a pool site (the collector's own callback may panic, caught), enabled! probe, rebuild_interest_cache, flip} on 1-3 threads in a seeded total order, a quarter of the runs as seeded schedules over a shared pair of sites; non-trivial = at least one expected delivery AND one expected suppression after at least one collector change; distinct = distinct plan digest".into(),
+            "C02" => "history (op granularity, total order) or schedule (sync granularity: every atomic op of tracing-core is a preemption point) over {open/close scope, with_default incl. unwinding, set_global_default from any thread, emit (the collector's callback may panic, caught), Dispatch identity read}, 1-4 threads, a third of the runs with thread-local destructors that open and close a scope while their thread exits, including dispatcher use before the global default exists; non-trivial = at least one emission expected at a scoped collector and one at the global default (or discarded); distinct = distinct (plan, schedule digest)".into(),
+            _ => "2-3 threads x <=4 ops from {first hit of shared pool sites, Dispatch::new (a third of the collectors reloadable), drop, set_default+emit, set_global_default, rebuild_interest_cache, flip of a reloadable collector followed by its rebuild} under seeded schedules at atomic-op/lock granularity, then a quiescence probe phase; non-trivial = at least one scheduling decision with >=2 runnable threads while two threads touched the same callsite or the dispatcher list; distinct = distinct (plan, schedule digest)".into(),
         }
     }
     fn components(&self) -> Value {
@@ -295,8 +325,20 @@ impl Engine for CoreEngine {
             // collectors that exist before the race (pre-phase, main thread, no other thread yet)
             let mut next_k = 0u64;
             let npre = rng.below(3);
+            // a third of the collectors are reloadable: a `flip` switches between two static configurations and
+            // rebuilds the interest cache, like a reload handle does
+            let mut reloadable: Vec<bool> = vec![];
+            let mut gen_c04_filter = |rng: &mut Rng, reloadable: &mut Vec<bool>| -> Value {
+                let mut f = gen_filter(rng, false);
+                let r = rng.chance(1, 3);
+                if r {
+                    f["mode"] = json!(3);
+                }
+                reloadable.push(r);
+                f
+            };
             for _ in 0..npre {
-                pre.push(json!({"t": 0, "op": "new", "k": next_k, "f": gen_filter(&mut rng, false)}));
+                pre.push(json!({"t": 0, "op": "new", "k": next_k, "f": gen_c04_filter(&mut rng, &mut reloadable)}));
                 next_k += 1;
             }
             let f11_open = finding_open("F11");
@@ -327,7 +369,7 @@ impl Engine for CoreEngine {
                         0..=3 => steps.push(json!({"t": t, "op": "emit", "site": *rng.pick(&pool), "kind": rng.below(2)})),
                         4 | 5 => {
                             if next_k < 4 {
-                                steps.push(json!({"t": t, "op": "new", "k": next_k, "f": gen_filter(&mut rng, false)}));
+                                steps.push(json!({"t": t, "op": "new", "k": next_k, "f": gen_c04_filter(&mut rng, &mut reloadable)}));
                                 if rng.chance(2, 3) {
                                     steps.push(json!({"t": t, "op": "open", "k": next_k}));
                                     open += 1;
@@ -348,7 +390,14 @@ impl Engine for CoreEngine {
                                 steps.push(json!({"t": t, "op": "global", "k": rng.below(lim)}));
                             }
                         }
-                        8 => steps.push(json!({"t": t, "op": "rebuild"})),
+                        8 => {
+                            let rl: Vec<u64> = (0..next_k).filter(|k| reloadable.get(*k as usize).copied().unwrap_or(false)).collect();
+                            if !rl.is_empty() && rng.chance(2, 3) {
+                                steps.push(json!({"t": t, "op": "flip", "k": *rng.pick(&rl)}));
+                            } else {
+                                steps.push(json!({"t": t, "op": "rebuild"}));
+                            }
+                        }
                         _ => {
                             if open > 0 {
                                 steps.push(json!({"t": t, "op": "close"}));
@@ -362,8 +411,9 @@ impl Engine for CoreEngine {
             }
             // interleave threads' steps in the list (order across threads is irrelevant in sync mode)
         } else {
-            let allow_dyn = prop == "C01" && !sync;
+            let allow_dyn = prop == "C01";
             let mut created: Vec<u64> = vec![];
+            let mut flippable: Vec<u64> = vec![]; // collectors whose filter has a second configuration
             let mut open_depth = vec![0u64; nthreads as usize];
             let f1_trigger_mode = g.mode == "probe:F1";
             let f1_guard = prop == "C02" && finding_open("F1") && !f1_trigger_mode;
@@ -378,6 +428,9 @@ impl Engine for CoreEngine {
                 if want_new {
                     let k = created.len() as u64;
                     let f = if prop == "C02" && (sync || rng.chance(2, 3)) { json!({"thr": 5, "targets": 15, "mode": 0, "hint": rng.below(3)}) } else { gen_filter(&mut rng, allow_dyn) };
+                    if f["mode"].as_u64().unwrap_or(0) != 0 {
+                        flippable.push(k);
+                    }
                     steps.push(json!({"t": t, "op": "new", "k": k, "f": f}));
                     created.push(k);
                     continue;
@@ -431,12 +484,19 @@ impl Engine for CoreEngine {
                     46..=49 => json!({"t": t, "op": "rebuild"}),
                     50..=54 => {
                         if allow_dyn {
-                            json!({"t": t, "op": "flip", "k": k})
+                            json!({"t": t, "op": "flip", "k": if flippable.is_empty() { k } else { *rng.pick(&flippable) }})
                         } else {
                             json!({"t": t, "op": "whoami"})
                         }
                     }
-                    55..=59 => json!({"t": t, "op": "whoami"}),
+                    55..=59 => {
+                        // under seeded schedules flips (each followed by its rebuild) are what races with first hits
+                        if allow_dyn && sync && !flippable.is_empty() {
+                            json!({"t": t, "op": "flip", "k": *rng.pick(&flippable)})
+                        } else {
+                            json!({"t": t, "op": "whoami"})
+                        }
+                    }
                     60..=64 => json!({"t": t, "op": "drop", "k": k}),
                     _ => {
                         if !global_done && open_depth[tt] == 0 && open_depth.iter().any(|d| *d > 0) {
@@ -468,7 +528,7 @@ impl Engine for CoreEngine {
         let sched = if sync { Sched::swarm(&mut rng, if prop == "C04" { 300 } else { 600 }) } else { Sched::op_order(rng.next_u64()) };
         json!({
             "engine": "core", "prop": g.prop, "mode": g.mode,
-            "cfg": {"threads": nthreads, "collectors": 8},
+            "cfg": {"threads": nthreads, "collectors": 8, "late_scopes": if prop == "C02" && rng.chance(1, 3) { rng.below(16) & !1 } else { 0 }},
             "pre": pre,
             "steps": steps,
             "sched": serde_json::to_value(&sched).unwrap(),
@@ -494,6 +554,7 @@ impl Engine for CoreEngine {
         let steps: Vec<Value> = plan["steps"].as_array().cloned().unwrap_or_default();
         let pre: Vec<Value> = plan["pre"].as_array().cloned().unwrap_or_default();
         std::panic::set_hook(Box::new(|_| {}));
+        LATE_SCOPES.store(plan["cfg"]["late_scopes"].as_u64().unwrap_or(0) as usize, Ordering::SeqCst);
         {
             let mut sl = SLOTS.lock().unwrap();
             sl.handles = vec![None; ncoll];
@@ -604,7 +665,19 @@ fn oracle(prop: &str, sync: bool, hist: &[Hist], log: &[Rec], filters: &[Option<
     let mut seen_global_or_none = false;
 
     let hist_ref: &Vec<Hist> = &hist;
-    let check_emission = |t: usize, site: i64, kind: u8, val: u64, inv: u64, ret: u64, receiver_opts: &[i64], flipped: &[bool], expd: &mut u64, exps: &mut u64, f1sig: bool| {
+    // flip states a collector's filter may be in during [inv, ret]: flips that returned before `inv` have taken
+    // effect, flips overlapping the window may or may not have (under a total order nothing overlaps)
+    let flips: Vec<(i64, u64, u64)> = hist.iter().filter(|h| h.op == "flip" && h.applied).map(|h| (h.k, h.inv, h.ret)).collect();
+    let flip_states = |k: i64, inv: u64, ret: u64| -> Vec<bool> {
+        let done = flips.iter().filter(|f| f.0 == k && f.2 < inv).count();
+        let overlapping = flips.iter().filter(|f| f.0 == k && f.2 >= inv && f.1 <= ret).count();
+        if overlapping == 0 {
+            vec![done % 2 == 1]
+        } else {
+            vec![false, true]
+        }
+    };
+    let check_emission = |t: usize, site: i64, kind: u8, val: u64, inv: u64, ret: u64, receiver_opts: &[i64], _flipped: &[bool], expd: &mut u64, exps: &mut u64, f1sig: bool| {
         let want_kind = if kind == 1 { "new_span" } else { "event" };
         let got: Vec<&Rec> = log.iter().filter(|r| r.thread == t && r.stamp > inv && r.stamp < ret && r.kind == want_kind && r.val == val).collect();
         let (lvl, tg) = sites::SITES[site as usize];
@@ -613,8 +686,10 @@ fn oracle(prop: &str, sync: bool, hist: &[Hist], log: &[Rec], filters: &[Option<
         for &r in receiver_opts {
             if r >= 0 {
                 let f = filters[r as usize].as_ref();
-                let acc = f.map_or(false, |f| f.accept(lvl, tg, flipped[r as usize]));
-                opts.push(if acc { Some(r) } else { None });
+                for st in flip_states(r, inv, ret) {
+                    let acc = f.map_or(false, |f| f.accept(lvl, tg, st));
+                    opts.push(if acc { Some(r) } else { None });
+                }
             } else {
                 opts.push(None);
             }
@@ -702,7 +777,7 @@ fn oracle(prop: &str, sync: bool, hist: &[Hist], log: &[Rec], filters: &[Option<
                 // a thread without any collector must see `false` (the no-op collector enables nothing)
                 {
                     let (lvl, tg) = sites::SITES[h.site as usize];
-                    let ok = recv_opts.iter().any(|&r| if r < 0 { !h.res_bool } else { filters[r as usize].as_ref().map_or(false, |f| f.accept(lvl, tg, flipped[r as usize])) == h.res_bool });
+                    let ok = recv_opts.iter().any(|&r| if r < 0 { !h.res_bool } else { flip_states(r, h.inv, h.ret).iter().any(|st| filters[r as usize].as_ref().map_or(false, |f| f.accept(lvl, tg, *st)) == h.res_bool) });
                     if !ok {
                         violation("probe-mismatch", format!("enabled! at site {} on t{t} returned {} but the current collector {:?} says otherwise", h.site, h.res_bool, recv_opts));
                     }
@@ -731,7 +806,7 @@ fn oracle(prop: &str, sync: bool, hist: &[Hist], log: &[Rec], filters: &[Option<
             for (k, l) in live.iter().enumerate() {
                 if *l {
                     if let Some(f) = &filters[k] {
-                        need = need.max(f.max_accept());
+                        need = need.max(f.need_in(flipped[k]));
                     }
                 }
             }
@@ -744,7 +819,8 @@ fn oracle(prop: &str, sync: bool, hist: &[Hist], log: &[Rec], filters: &[Option<
     let q = std::mem::take(&mut *QUIESCE.lock().unwrap());
     for (k, s, offered, inv, ret, _) in &q {
         let (lvl, tg) = sites::SITES[*s];
-        let acc = filters[*k].as_ref().map_or(false, |f| f.accept(lvl, tg, false));
+        let final_state = flips.iter().filter(|f| f.0 == *k as i64).count() % 2 == 1;
+        let acc = filters[*k].as_ref().map_or(false, |f| f.accept(lvl, tg, final_state));
         let got = log.iter().filter(|r| r.stamp > *inv && r.stamp < *ret && r.kind == "event").collect::<Vec<_>>();
         let delivered_here = got.iter().any(|r| r.k == *k);
         if got.iter().any(|r| r.k != *k) {
